@@ -31,7 +31,9 @@ import (
 	"testing/synctest"
 	"time"
 
+	"github.com/tsuna/gohbase/hrpc"
 	"github.com/tsuna/gohbase/internal/verifsim"
+	"google.golang.org/protobuf/proto"
 )
 
 type c03workload struct {
@@ -279,6 +281,41 @@ func TestVerifC03(t *testing.T) {
 	})
 	rep.Distinct++
 
+	// ---- A4: the TLC behaviour "sender between the done check and registerRPC while fail() runs": the sender is held while it
+	// serialises the request (after QueueRPC saw the client alive, before registerRPC), Close() is held inside conn.Close, the
+	// sender goes on (registers, writes on the still open socket), then Close() finishes. The call must be completed.
+	for _, kind := range []string{"get", "put"} {
+		name := "A4/sender-registers-while-close-is-inside-conn.Close/" + kind
+		synctest.Test(t, func(t *testing.T) {
+			closeHeld, closeGo := make(chan struct{}), make(chan struct{})
+			var holdClose atomic.Bool
+			hook := func(op verifsim.Op) *verifsim.Fault {
+				if op.Kind == verifsim.OpClose && holdClose.CompareAndSwap(true, false) {
+					close(closeHeld)
+					<-closeGo
+				}
+				return nil
+			}
+			env := newRCEnv(rcOpts{queueSize: 1, hook: hook})
+			c1 := env.newCall("a4", kind, false)
+			serialising, goOn := make(chan struct{}), make(chan struct{})
+			c1.call = &c03gated{Call: c1.call, gate: func() { close(serialising); <-goOn }}
+			env.goQueue(c1)
+			<-serialising // past the done check, not yet registered
+			holdClose.Store(true)
+			go env.c.Close()
+			<-closeHeld // done is closed; fail() is inside conn.Close()
+			close(goOn) // the sender registers and writes
+			time.Sleep(10 * time.Millisecond)
+			close(closeGo)
+			rcSettle()
+			env.quiesce()
+			o.flush(name, env)
+			env.finish()
+		})
+		rep.Distinct++
+	}
+
 	// ---- B: k-th operation fails
 	flavours := []string{"w0", "whalf", "eof", "reset", "deadline", "close"}
 	for wi, w := range c03workloads {
@@ -361,4 +398,18 @@ func TestVerifC03(t *testing.T) {
 		synctest.Test(t, func(t *testing.T) { c03run(o, nm, w, f, 0, js) })
 		rep.Distinct++
 	}
+}
+
+// c03gated wraps a call so that the harness can hold the sender while it serialises the request.
+type c03gated struct {
+	hrpc.Call
+	gate func()
+	once atomic.Bool
+}
+
+func (g *c03gated) ToProto() proto.Message {
+	if g.once.CompareAndSwap(false, true) {
+		g.gate()
+	}
+	return g.Call.ToProto()
 }
